@@ -526,17 +526,8 @@ Definition printValue (rec : recT) (env : env) (value : value) (verb : Z) (depth
   end.
 
 (* ---------- printArg ---------- *)
-Definition printArg (rec : recT) (env : env) (arg0 : value) (verb : Z) : M unit :=
-  let reg := is_registered arg0 in
-  let arg := if reg then arg0 else match arg0 with VSafe v _ => v | VUnsafe v => v | _ => arg0 end in
-  let outer (body : M unit) : M unit :=
-    if reg then bracket start_safe_ovr body
-    else match arg0 with
-         | VSafe _ _ => bracket start_safe_ovr body
-         | VUnsafe _ => bracket start_unsafe_ovr body
-         | _ => body
-         end in
-  outer
+(* what printArg does once the outermost wrapper / registered type has been accounted for *)
+Definition printArg_body (rec : recT) (env : env) (arg : value) (verb : Z) : M unit :=
     (bracket_if (is_safe_value arg) start_safe_ovr
        (modify (fun s => set_val (set_arg s (match arg with VNil => None | _ => Some arg end)) None) ;;;
         match arg with
@@ -566,6 +557,18 @@ Definition printArg (rec : recT) (env : env) (arg0 : value) (verb : Z) : M unit 
                 else rec (CPrintValue arg verb 0%nat true) ;;; ret tt
             end
         end)).
+
+Definition printArg (rec : recT) (env : env) (arg0 : value) (verb : Z) : M unit :=
+  let reg := is_registered arg0 in
+  let arg := if reg then arg0 else match arg0 with VSafe v _ => v | VUnsafe v => v | _ => arg0 end in
+  let outer (body : M unit) : M unit :=
+    if reg then bracket start_safe_ovr body
+    else match arg0 with
+         | VSafe _ _ => bracket start_safe_ovr body
+         | VUnsafe _ => bracket start_unsafe_ovr body
+         | _ => body
+         end in
+  outer (printArg_body rec env arg verb).
 
 (* ---------- scripts: the body of Format / SafeFormat / the error hook ---------- *)
 Definition fresh_pp (l : lbuf) (o : ovr) : pst :=
